@@ -149,7 +149,7 @@ def run(ctx, col, tier):
     first = loop.body[0] if loop.body else None
     ok = isinstance(first, ast.If) and any(isinstance(x, ast.Name) and x.id == "re_swc"
                                           for x in ast.walk(first.test))
-    col.check(ok and len(loop.body) == 1, "R-CLASSIFY", p.qualname, p.loc(loop),
+    col.shape(ok and len(loop.body) == 1, "R-CLASSIFY", p.qualname, p.loc(loop),
               "loop body is one classification ladder keyed on the row regex", "",
               "the loop body is not a single if/elif ladder starting with the row regex test",
               stmt="ladder")
@@ -166,10 +166,10 @@ def run(ctx, col, tier):
             dotted(inner.iter.func) == "enumerate" and norm_src(inner.iter.args[0]) == "transforms" \
             and not any(isinstance(s, (ast.Break, ast.Continue)) for s in ast.walk(inner)) \
             and not any(isinstance(s, ast.Try) for s in ast.walk(inner))
-        col.check(ok, "R-ROW", p.qualname, p.loc(c), "converter loop runs over all columns without "
+        col.shape(ok, "R-ROW", p.qualname, p.loc(c), "converter loop runs over all columns without "
                   "break/continue/try", norm_src(inner.iter) if inner else "",
                   "the row append can stop early or skip a column", stmt="conv-loop")
     # the with-block covers the loop; the table is built after it from all rows
     body_nodes = list(ast.walk(w))
-    col.check(loop in body_nodes, "R-ROW", p.qualname, p.loc(w),
+    col.shape(loop in body_nodes, "R-ROW", p.qualname, p.loc(w),
               "the read loop runs inside the handle's with-block", "", "", stmt="with-loop")
